@@ -1,5 +1,6 @@
 import Hoot.Model.Flow
 import Hoot.Proofs.RespLimit
+import Hoot.Proofs.RespSlots
 import Hoot.Proofs.PropsWF
 import Hoot.Props.C05
 
@@ -19,6 +20,17 @@ theorem C11_undecided (f : Flow) (w : Bytes) (h : tryParseResponse 0 w = .ok non
 theorem C11_undecided_bare (f : Flow) (h : Head) (hw : h.wf) (hf : h.fields = []) (n : Nat) (hn : n < h.enc.length) :
     stepAwait100 f (.read100 (h.enc.take n)) = (f, .count 0) :=
   C11_undecided f _ (C05_prefix h hw 0 (by simp [hf]) n hn)
+
+/-- **C11 (undecided, response with fields).** For a head that has fields, input that ends anywhere before
+    the end of its FIRST field line — inside the status line, right after it, inside the field — decides
+    nothing and consumes nothing (the zero-slot parser only objects when a field line is complete). -/
+theorem C11_undecided_fields (fl : Flow) (h : Head) (hw : h.wf) (f : Field) (fs : List Field) (hfs : h.fields = f :: fs)
+    (n : Nat) (hn : n < h.statusLine.length + f.enc.length) :
+    stepAwait100 fl (.read100 (h.enc.take n)) = (fl, .count 0) := by
+  obtain ⟨st, hst⟩ := resp_inside_first_field h hw f fs hfs 0 n hn
+  apply C11_undecided
+  unfold tryParseResponse
+  rw [hst]
 
 /-- **C11 (continue).** A complete bare 100 (any reason phrase) followed by anything is consumed exactly
     and clears the waiting flag; the body is still due. -/
